@@ -61,7 +61,19 @@ func (d Matches) Less(i, j int) bool {
 		return di.StartTokenIndex < dj.StartTokenIndex
 	}
 	// Should never get here, but tiebreak based on the larger license.
-	return di.EndTokenIndex > dj.EndTokenIndex
+	if di.EndTokenIndex != dj.EndTokenIndex {
+		return di.EndTokenIndex > dj.EndTokenIndex
+	}
+	// Two corpus documents with the same words match the same span with the
+	// same confidence. Order them by identity so that the result does not
+	// depend on map iteration order.
+	if di.MatchType != dj.MatchType {
+		return di.MatchType < dj.MatchType
+	}
+	if di.Name != dj.Name {
+		return di.Name < dj.Name
+	}
+	return di.Variant < dj.Variant
 }
 
 // Match reports instances of the supplied content in the corpus.
